@@ -33,7 +33,7 @@ def main():
     a = ap.parse_args()
     wt, out = "/tmp/seed/wt_%s" % a.pid, "/tmp/seed/out_%s" % a.pid
     patch = os.path.join(out, "patch_%s.diff" % a.which)
-    demos = glob.glob(os.path.join(out, "demo_%s.*" % a.which))
+    demos = [d for ext in (".py", ".sh") for d in glob.glob(os.path.join(out, "demo_%s%s" % (a.which, ext)))]
     if not os.path.exists(patch) or not demos:
         sys.exit("missing patch or demo in %s" % out)
     demo = demos[0]
@@ -87,7 +87,10 @@ def main():
         d = os.path.join(VERIF, "seeded", "%s-%s" % (a.pid, a.which))
         os.makedirs(d, exist_ok=True)
         shutil.copy(patch, os.path.join(d, "patch.diff"))
-        shutil.copy(demo, os.path.join(d, "demo" + os.path.splitext(demo)[1]))
+        shutil.copy(demo, os.path.join(d, os.path.basename(demo)))
+        for extra in glob.glob(os.path.join(out, "*.c")) + glob.glob(os.path.join(out, "*.h")):
+            if a.which in os.path.basename(extra) or "harness" in os.path.basename(extra):
+                shutil.copy(extra, os.path.join(d, os.path.basename(extra)))
         notes = os.path.join(out, "notes.md")
         if os.path.exists(notes):
             shutil.copy(notes, os.path.join(d, "agent_notes.md"))
